@@ -379,6 +379,23 @@ def configs_for(r, tier, nrand):
     return cfgs
 
 
+def gen_refine_blocks(r):
+    """K independent blocks  opt c x + (c/2)(1 + 2^-40) y  s.t.  x + y/2 <= 1, y <= U, x, y >= 0  (maximisation; mirrored for
+    minimisation): in floating point the vertex x = 1, y = 0 looks optimal (reduced cost of y is c 2^-41), exactly it is x = 0, y = 2"""
+    K = r.randint(2, 4)
+    eps = Fraction(1, 2 ** 40)
+    maxi = r.random() < 0.6
+    sg = 1 if maxi else -1
+    cols, rows = [], []
+    for k in range(K):
+        c = Fraction(r.choice([1, 2, 2, 4]))
+        cols.append((sg * c, Fraction(0), None))
+        cols.append((sg * (c / 2) * (1 + eps), Fraction(0), None))
+        rows.append((None, {2 * k: Fraction(1), 2 * k + 1: Fraction(1, 2)}, Fraction(1)))
+        rows.append((None, {2 * k + 1: Fraction(1)}, Fraction(r.choice([4, 10]))))
+    return lpgen.LP(maxi, Fraction(0), cols, rows, "refine-blocks")
+
+
 def main():
     ck = vlib.Check("C16", "proof")
     ck.prove()
@@ -418,6 +435,10 @@ def main():
             else:
                 lps.append(lpgen.gen_lp(r, nmax))
         lps = [c[0] for c in corpus] + lps
+        # LPs on which the exact solve has to PIVOT inside a refinement round (the floating-point optimal vertex is not the exact
+        # optimum: cost difference 2^-40), so that an iteration limit can fall strictly inside a refinement round
+        nref = 4 if ck.tier == "quick" else 24
+        lps = [gen_refine_blocks(r) for _ in range(nref)] + lps
         fixed_cfgs = None
     classes, exs = S.classify(lps)
     cfgs = {}
@@ -516,10 +537,20 @@ def main():
         if k < nexact:
             ex = "syncmode=1 solvemode=2 checkmode=2 feastol=0 opttol=0"
             xs = [("reflimit", 0), ("reflimit", 1), ("reflimit", 2), ("stallreflimit", 0), ("stallreflimit", 1), ("iterlimit", 0), ("iterlimit", 1), ("iterlimit", 3)]
+            if p.family == "refine-blocks":
+                ex += " simplifier=0"
+                xs += [("iterlimit", v) for v in (2, 4, 5, 6, 7, 8, 10, 12)]
             for xi, (par, val) in enumerate(xs):
                 do = "DO x%d new %s %s=%d ; opt ; set %s=-1 ; opt" % (xi, ex, par, val, par)
                 todo_exact.append((k, "x%d" % xi, do))
                 plan[(k, -1, "x%d" % xi)] = ("exact", (par, val), do)
+            # ... and the same stops continued in FLOATING-POINT mode after the limit is lifted
+            fl = [v for (par, v) in xs if par == "iterlimit"]
+            for v in fl:
+                rid = "xf%d" % v
+                do = "DO %s new %s iterlimit=%d ; opt ; set iterlimit=-1 solvemode=0 feastol=1e-6 opttol=1e-6 ; opt" % (rid, ex, v)
+                todo_exact.append((k, rid, do))
+                plan[(k, -1, rid)] = ("exact", ("iterlimit-then-float", v), do)
             do = "DO x%d new %s timelimit=0 ; opt ; set timelimit=1e100 ; opt" % (len(xs), ex)
             todo_exact.append((k, "x%d" % len(xs), do))
             plan[(k, -1, "x%d" % len(xs))] = ("exact", ("timelimit", 0), do)
@@ -648,6 +679,17 @@ def main():
             st = o["status"]
             which = "limited" if o["_step"] == 0 else "lifted"
             ck.count("exact:%s:%s:%s" % (par[0], which, st))
+            if par[0] == "iterlimit-then-float" and which == "lifted":
+                # the continuation is a floating-point solve: judged by status and objective value against the certified optimum
+                if st == "OPTIMAL" and cl is not None and cl[0] == "optimal" and "obj" in o:
+                    v = lpgen.dy2fr(o["obj"])
+                    if v is None or abs(v - cl[1]) > Fraction(1, 10 ** 6) * (1 + abs(cl[1])):
+                        J.viol("exact-abort-then-float:objective", "exact solve stopped by ITERLIMIT %d, limit lifted, continued in floating-point mode: OPTIMAL with "
+                               "objective %s but the certified optimum is %s" % (par[1], float(v) if v is not None else None, float(cl[1])), p, {}, "exact", do, obs)
+                elif st in ("OPTIMAL", "INFEASIBLE", "UNBOUNDED") and cl is not None and CLASS_STATUS[cl[0]] != st:
+                    J.viol("exact-abort-then-float:verdict:%s" % st, "exact solve stopped by ITERLIMIT %d, continued in floating-point mode: %s for an LP certified %s" % (
+                        par[1], st, cl[0]), p, {}, "exact", do, obs)
+                continue
             if st in ("OPTIMAL", "INFEASIBLE", "UNBOUNDED"):
                 bad = cl is not None and CLASS_STATUS[cl[0]] != st
                 if st == "OPTIMAL" and not bad and a.get("s%d" % o["_step"]) != "true":
@@ -659,7 +701,7 @@ def main():
             elif which == "lifted" and cl is not None:
                 ck.count("exact-lifted-not-solved:%s" % st)
         o1 = obs[0]
-        if par[0] == "iterlimit" and int(o1.get("iters", 0)) > par[1]:
+        if par[0] in ("iterlimit", "iterlimit-then-float") and int(o1.get("iters", 0)) > par[1]:
             J.viol("exact-iterations-exceed-limit", "exact solve with ITERLIMIT %d performed %s iterations" % (par[1], o1.get("iters")), p, {}, "exact", do, obs)
         if par[0] == "reflimit" and int(o1.get("refs", 0)) > par[1]:
             J.viol("exact-refinements-exceed-limit", "exact solve with REFLIMIT %d performed %s refinements" % (par[1], o1.get("refs")), p, {}, "exact", do, obs)
